@@ -377,3 +377,22 @@ def sweeps(ctx):
                           note=f"{recv}: tables untouched by its user")
     ctx.require_count("C20-Q1 PriorityQueue instances in the package", n_pq, 1)
     ctx.require_count("C20-U2 UnionFind instances in the package", n_uf, 1)
+
+
+
+# ----------------------------------------------------------------------- generic families (msa/rules/generic.py)
+_run_specific = run
+
+
+def run(ctx):
+    _run_specific(ctx)
+    from ..rules import generic
+    generic.apply(ctx, "C20", stale_modules=())
+
+
+def _generic_rule_texts():
+    from ..rules import generic
+    return generic.rule_texts("C20", stale=False)
+
+
+RULES.update(_generic_rule_texts())
